@@ -29,23 +29,8 @@ LD_PIC, HQ_PIC, LD_FRAG, HQ_FRAG = 0xC8, 0xE8, 0xCC, 0xEC
 NPICS = 4
 LEVELS = [0, 1, 2, 3, 4, 5, 6, 7, 64, 65, 66]
 
-_real_level_rows = None
-
-
 def install_permissive_level_values():
-    """Replace the level *value* table (LEVEL_CONSTRAINTS) in this process by a
-    single all-permitting row, so that tiny pictures can carry any level number.
-    LEVEL_SEQUENCE_RESTRICTIONS — the data-unit ordering patterns C01 is about
-    — stays the real table.  Recorded as a stub in the evidence."""
-    global _real_level_rows
-    if _real_level_rows is not None:
-        return
-    _real_level_rows = list(LEVEL_CONSTRAINTS)
-    keys = set()
-    for row in _real_level_rows:
-        keys.update(row.keys())
-    del LEVEL_CONSTRAINTS[:]
-    LEVEL_CONSTRAINTS.append({k: AnyValue() for k in sorted(keys)})
+    R.use_permissive_levels()
 
 
 # --------------------------------------------------------------------------
@@ -272,6 +257,13 @@ def assemble(pool, units):
             b, a.count, a.x, a.y = frs[u["j"] % len(frs)]
             body = bytearray(b)
             body[0:4] = (u["num"] & 0xFFFFFFFF).to_bytes(4, "big")
+            if "xy" in u and a.count:
+                # channel fault on the fragment's slice offsets (the body's
+                # slices stay where they are; a conformant receiver must reject
+                # before reading them)
+                a.x, a.y = u["xy"][0] & 0xFFFF, u["xy"][1] & 0xFFFF
+                body[8:10] = a.x.to_bytes(2, "big")
+                body[10:12] = a.y.to_bytes(2, "big")
             a.code = u.get("code", pool.frag_code)
             a.num = u["num"] & 0xFFFFFFFF
             a.feat = 3
@@ -642,6 +634,17 @@ def gen_history(rng, pool, max_units=14):
         if cands:
             u = rng.choice(cands)
             u["num"] = (u["num"] + rng.choice([1, -1, 2, 1 << 31])) & 0xFFFFFFFF
+    # --- fragment slice-offset faults (incl. values aliasing the right
+    # linear slice index with an out-of-range column)
+    conts = [u for u in units if u["t"] == "F" and u.get("j", 0) > 0]
+    if conts and rng.random() < 0.15:
+        u = rng.choice(conts)
+        _b, _c, x, y = pool.fragments[u["pic"] % NPICS][u["j"] % len(pool.fragments[u["pic"] % NPICS])]
+        sx = pool.cfg["sx"]
+        cands = [[x + sx * y, 0], [x + 1, y], [x, y + 1], [0, 0], [x + sx, y]]
+        if y > 0:
+            cands += [[x + sx, y - 1], [x + sx, y - 1]]
+        u["xy"] = rng.choice(cands)
     # --- offset faults
     if rng.random() < 0.3:
         u = rng.choice(units) if units else None
@@ -677,6 +680,8 @@ def unit_repr(u):
         s += ">%s" % u["nx"]
     if u.get("pv", "ok") != "ok":
         s += "<%s" % u["pv"]
+    if "xy" in u:
+        s += "@%d,%d" % tuple(u["xy"])
     return s
 
 
@@ -742,7 +747,7 @@ class C01(UnitChanSpec):
         for us in shrink_list(case["units"]):
             yield dict(case, units=us)
         for k, u in enumerate(case["units"]):
-            for f in ("nx", "pv", "code"):
+            for f in ("nx", "pv", "code", "xy"):
                 if f in u and u[f] != "ok":
                     v = dict(u)
                     del v[f]
